@@ -27,7 +27,7 @@ pub(crate) struct MemberFunction {
 
 impl MemberFunction {
     pub fn symbolic_id(&self) -> String {
-        format!("{}::{}", self.class_type.name(), self.ident().name())
+        format!("{}::{}", self.class_type.bytecode_name(), self.ident().name())
     }
 }
 
